@@ -339,7 +339,7 @@ theorem bmca_keeps_bnd (i i' : Inst) (order : List Nat) (obs : Obs) (hnd : order
         simp only [Except.ok.injEq, Prod.mk.injEq] at hw
         obtain ⟨hi', _⟩ := hw
         have hfr := bmcaApply_fresh (findBest cands) lbs1 order ports1 i.st [] [] ports2 s2 ev2 pend2 hap
-        obtain ⟨_, g2⟩ := C08.bmcaAge_spec step order ports2 ports3 hag
+        obtain ⟨_, g2⟩ := bmcaAge_spec step order ports2 ports3 hag
         intro j p' hp'
         have hj : j < i.ports.length := by
           rw [← hlen]
